@@ -31,13 +31,39 @@ def make_scn(rng, real):
                            workers=((None,) if big else (1, 2, 3, None)))
     if big:
         scn['max_workers'] = None
+    sim_deaths = backend == 'sim' and any(a in ('kill', 'exit', 'exit0') for a in (scn.get('failing') or {}).values())
+    if not scn.get('gated') and not sim_deaths and rng.random() < 0.3:
+        # the same Lab executes the same task objects once more (bust_cache): the limits hold in that call too
+        scn['second_run'] = {'failing': {}}
     return scn
 
 
 def judge(rep, scn, out):
     from vlab import oracles
     from vlab.props.dagprop import report_bad
+    sec = getattr(out, 'second', None)
+    if sec:
+        out.trace.calls = out.trace.calls[:len(out.trace.calls) - len(sec['calls'])]
     bad, checks, peak = oracles.c04(scn, out)
+    if sec:
+        from collections import Counter
+        from vlab.model import max_parallel
+        rep.count('second_calls_on_the_same_task_objects')
+        spec = scn['spec']
+        inflight = []
+        for c in sec['calls']:
+            if c['op'] == 'submit':
+                inflight.append(c['name'])
+                cnt = Counter(spec['tasks'][n]['type'] for n in inflight)
+                mp = max_parallel(spec, c['name'])
+                checks += 1
+                if mp is not None and cnt[spec['tasks'][c['name']]['type']] > mp:
+                    bad.append(('type-limit-exceeded-at-submit', f"second run_tasks call on the same task objects: "
+                                f"{cnt[spec['tasks'][c['name']]['type']]} tasks of type {spec['tasks'][c['name']]['type']} in "
+                                f"flight (max_parallel={mp}) after submit({c['name']}): {inflight}"))
+                    break
+            elif c['op'] == 'yield' and c['name'] in inflight:
+                inflight.remove(c['name'])
     rep.count('limit_checks', checks)
     rep.count('peak_parallel_sum', peak)
     rep.seen('peak_parallel', peak)
@@ -58,6 +84,7 @@ def run_shard(rep):
     cfg = META['tiers'][rep.tier]
     rep.require('limit_checks', 3000)
     rep.require('rest_points', 60)
+    rep.require('second_calls_on_the_same_task_objects', 100)
     drive(rep, 'C04', make_scn=make_scn, judge=judge, n_sim=cfg['n_sim'], n_real=cfg['n_real'])
 
 
